@@ -6,5 +6,5 @@ TRUSTED = simcheck.TRUSTED_SIM
 
 
 def run(ctx):
-    simcheck.run_sim_property(ctx, ["C01"], lambda r, w: simmon.mon_c01(r),
+    simcheck.run_sim_property(ctx, ["C01"], lambda r, w: simmon.mon_c01(r, w),
                               "a worker's resident tasks demand more than its capacity, or the ledger disagrees with the sum of requests")
